@@ -25,6 +25,19 @@ def gen(c):
         for kind in ('prf', 'prf_fixed'):
             p.case(['os.prf kind=%s key=%s in=%s n=%d' % (kind, key16(), hx(pattern(rng, rng.choice([0, 5, 32, 40]))), n)], cost=0.3)
             c.distinct([(kind, 'out', n)])
+    # the incremental PRF / MAC / KMAC objects with the message and the output cut at arbitrary places
+    # (an absorb that starts inside a rate block and runs over its end is where the code has a second path)
+    for kind, rin, rout in (('prf', 32, 16), ('kmac', 8, 8), ('kmaca', 8, 8)):
+        for rep in range(12 if th else 4):
+            ml = rng.choice([rin + 13, 2 * rin + 5, 3 * rin, rng.randrange(1, 4 * rin)]); m = pattern(rng, ml, 'rand')
+            init = 'sp.init kind=%s obj=1 key=%s' % (kind, key16())
+            if kind != 'prf': init += ' custom=%s outlen=%d' % (hx(pattern(rng, rng.choice([0, 3]))), rng.choice([0, 32]))
+            lines = [init]; pos = 0
+            for ch in chunks(rng, ml, rin):
+                lines.append('sp.absorb kind=%s obj=1 in=%s' % (kind, hx(m[pos:pos + ch]))); pos += ch
+            for ch in chunks(rng, rng.choice([16, 32, 2 * rout + 3]), rout):
+                lines.append('sp.squeeze kind=%s obj=1 n=%d' % (kind, ch))
+            p.case(lines + ['sp.free kind=%s obj=1' % kind], cost=0.6 + ml / 60.0); c.distinct([(kind, 'chunked', rep)])
     # MAC verify: right tag, each of the 128 single-bit flips, random tags
     for rep in range(3 if th else 1):
         k = pattern(rng, 16); m = pattern(rng, rng.choice([0, 7, 33]))
